@@ -531,6 +531,7 @@ class Assembled:
         self.functions = []      # dict(name, file, sha256, container)
         self.counts = Counts()
         self.n_clauses = 0
+        self.verus_args = []
 
     def emit(self, text):
         # contract shorthands: @new = (*final(self)), @old = (*old(self))
@@ -628,6 +629,9 @@ def assemble(unit_path, repo, vf_dir):
             i += 1
         elif s.startswith('%include'):
             A.emit(open(os.path.join(vf_dir, s.split()[1])).read())
+            i += 1
+        elif s.startswith('%verus_arg'):
+            A.verus_args.extend(s.split()[1:])
             i += 1
         elif s.startswith('%def'):
             name = s.split()[1]
